@@ -6,7 +6,7 @@ From Verif Require Import Common.V Common.Base Model.Ivf Model.Ogg Proofs.Ivf Pr
 Open Scope N_scope.
 
 (* a written page with the serial of its stream *)
-Definition wpage : Type := (N * opage)%type.
+Notation wpage := (N * opage)%type (only parsing).
 Definition bytes_of (log : list wpage) : list N := flat_map (fun sp => pg_data (snd sp)) log.
 Definition mine (serial : N) (log : list wpage) : list opage :=
   map snd (filter (fun sp => fst sp =? serial) log).
@@ -535,4 +535,151 @@ Proof.
     rewrite Ht1 in HR2. exact HR2.
   - rewrite Hg2, Hg1. reflexivity.
   - cbn [app]. apply Forall_app. split; [| rewrite Hs1]; apply Forall_tag.
+Qed.
+
+Definition single_run (w : swriter) (ops : list (list N)) : swriter :=
+  fold_left (fun w p => fst (single_write w p)) ops w.
+
+Lemma accepted_app : forall a b, accepted (a ++ b) = accepted a ++ accepted b.
+Proof.
+  induction a as [|p a IH]; intros b; [reflexivity|]. cbn [app accepted].
+  destruct p; [apply IH|]. destruct (opus_sample_count _); [cbn [app]; f_equal|..]; apply IH.
+Qed.
+
+Lemma single_write_inv : forall w cfg ps log p,
+  sinv w cfg ps log ->
+  exists log', sinv (fst (single_write w p)) cfg (ps ++ accepted [p]) log' /\
+               sw_fd (fst (single_write w p)) = sw_fd w.
+Proof.
+  intros w cfg ps log p Hinv.
+  destruct p as [|b p'].
+  - cbn [single_write fst accepted]. rewrite app_nil_r. exists log. split; [exact Hinv | reflexivity].
+  - unfold single_write. cbn [accepted].
+    destruct Hinv as (Hout & Hst & HR & Hg & Hall).
+    destruct (opus_sample_count (b :: p')) as [n | e |] eqn:Hn.
+    + destruct (write_opus_own (sw_fd w) log (sw_track w) _ (b :: p') n HR Hn)
+        as (pgs & tr' & Hw & Hst' & Hg' & HR').
+      rewrite Hout, Hw. cbn [fst sw_fd].
+      exists (log ++ tag (tr_serial (sw_track w)) pgs). split; [| reflexivity].
+      unfold sinv. cbn [sw_out sw_track sw_fd].
+      destruct (data_pkts_snoc ps 0 (b :: p') n) as [Hd Hs].
+      split; [reflexivity|]. split; [eapply same_static_trans; eauto|]. split; [| split].
+      * cbn [app]. rewrite Hd. rewrite <- Hg.
+        replace ([hdr_id cfg; hdr_tags cfg] ++ data_pkts 0 ps ++ [(0, b :: p', u64 (tr_prev_granule (sw_track w) + n))])
+          with (([hdr_id cfg; hdr_tags cfg] ++ data_pkts 0 ps) ++ [(0, b :: p', u64 (tr_prev_granule (sw_track w) + n))])
+          by (rewrite <- app_assoc; reflexivity).
+        exact HR'.
+      * rewrite Hg', Hs, Hg. reflexivity.
+      * apply Forall_app. split; [exact Hall|].
+        destruct Hst as (-> & _). apply Forall_tag.
+    + rewrite (write_opus_err _ _ _ _ e Hn). cbn [fst]. rewrite app_nil_r.
+      exists log. split; [| reflexivity]. unfold sinv. auto.
+    + exfalso. exact (opus_sample_count_no_panic _ Hn).
+Qed.
+
+Lemma single_run_inv : forall ops w cfg ps log,
+  sinv w cfg ps log ->
+  exists log', sinv (single_run w ops) cfg (ps ++ accepted ops) log' /\
+               sw_fd (single_run w ops) = sw_fd w.
+Proof.
+  induction ops as [|p ops IH]; intros w cfg ps log Hinv.
+  - cbn [single_run fold_left accepted]. rewrite app_nil_r. exists log. auto.
+  - unfold single_run. cbn [fold_left]. fold (single_run (fst (single_write w p)) ops).
+    destruct (single_write_inv w cfg ps log p Hinv) as (log1 & H1 & Hfd1).
+    destruct (IH _ cfg _ log1 H1) as (log2 & H2 & Hfd2).
+    exists log2. split; [| congruence].
+    replace (ps ++ accepted (p :: ops)) with ((ps ++ accepted [p]) ++ accepted ops); [exact H2|].
+    rewrite <- app_assoc. f_equal. change (p :: ops) with ([p] ++ ops). symmetry. apply accepted_app.
+Qed.
+
+(* the final shape of one stream: its packets' pages, ended either by a nil
+   EOS page or by the EOS flag set on its last page *)
+Inductive stream_shape (serial : N) (pkts : list pkt3) (granule : N) (final : list opage) : Prop :=
+| shape_nil : forall pages nilP,
+    packets_pages serial 0 pkts pages ->
+    nil_eos_page serial granule (N.of_nat (length pages)) nilP ->
+    final = pages ++ [nilP] -> stream_shape serial pkts granule final
+| shape_mark : forall front P P',
+    packets_pages serial 0 pkts (front ++ [P]) -> eos_of serial P P' ->
+    final = front ++ [P'] -> stream_shape serial pkts granule final.
+
+Lemma all_mine : forall s log, Forall (fun sp : wpage => fst sp = s) log -> mine s log = map snd log.
+Proof.
+  intros s log H. unfold mine. induction H as [|x l Hx _ IH]; [reflexivity|].
+  cbn [filter]. rewrite Hx, N.eqb_refl. cbn [map]. now rewrite IH.
+Qed.
+
+Lemma bytes_of_map : forall log, bytes_of log = flat_map pg_data (map snd log).
+Proof. induction log as [|x l IH]; [reflexivity|]. unfold bytes_of in *. cbn [flat_map map]. now rewrite IH. Qed.
+
+Lemma packets_pages_nonempty : forall serial idx p more pages,
+  packets_pages serial idx (p :: more) pages -> pages <> [].
+Proof.
+  intros serial idx p more pages H. inversion H as [| ? ht payload gr ? pgs rest Hch]; subst.
+  destruct (chain_nonempty _ _ _ _ _ _ _ Hch) as (front & l & -> & _).
+  destruct front; discriminate.
+Qed.
+
+Lemma single_stream : forall fd rate cm serial t ops,
+  exists w0, new_single fd rate cm serial t = Ok w0 /\
+    let cfg := new_track rate cm serial t in
+    let pkts := [hdr_id cfg; hdr_tags cfg] ++ data_pkts 0 (accepted ops) in
+    exists pages,
+      packets_pages serial 0 pkts pages /\
+      sw_out (single_run w0 ops) = flat_map pg_data pages /\
+      (N.of_nat (length pages) < 4294967296 ->
+       exists final, close_single (single_run w0 ops) = Ok (flat_map pg_data final) /\
+                     stream_shape serial pkts (gsum 0 (accepted ops)) final).
+Proof.
+  intros fd rate cm serial t ops.
+  destruct (new_single_inv fd rate cm serial t) as (w0 & log0 & Hnew & Hfd0 & Hinv0).
+  exists w0. split; [exact Hnew|]. cbv zeta.
+  destruct (single_run_inv ops w0 _ [] log0 Hinv0) as (log & Hinv & Hfd).
+  cbn [app] in Hinv. set (w := single_run w0 ops) in *.
+  destruct Hinv as (Hout & Hst & (Hpp & Hidx & Hlast) & Hg & Hall).
+  assert (Hser : tr_serial (sw_track w) = serial) by (destruct Hst as (-> & _); reflexivity).
+  rewrite Hser in *. cbn [tr_serial new_track] in Hall.
+  rewrite (all_mine serial log Hall) in *.
+  exists (map snd log). split; [exact Hpp|]. split; [rewrite Hout; apply bytes_of_map|].
+  intros Hbound.
+  assert (Hne : map snd log <> []).
+  { cbn [app] in Hpp. exact (packets_pages_nonempty _ _ _ _ _ Hpp). }
+  unfold close_single. rewrite Hfd, Hfd0.
+  destruct fd.
+  - (* rewrite the last page *)
+    assert (Hl : last_ok true log (sw_track w)) by (rewrite <- Hfd0, <- Hfd; exact Hlast).
+    assert (Hne' : mine (tr_serial (sw_track w)) log <> [])
+      by (rewrite Hser, (all_mine serial log Hall); exact Hne).
+    destruct (mark_eos_spec log (sw_track w) Hl Hne') as (k & P & P' & Hnth & Hpost & Heos & Hdl & Hm).
+    rewrite Hser in *. rewrite Hout, Hm.
+    assert (Hk : skipn (S k) log = []).
+    { assert (Hall' : Forall (fun sp : wpage => fst sp = serial) (skipn (S k) log)).
+      { apply Forall_forall. intros x Hx. rewrite Forall_forall in Hall. apply Hall.
+        rewrite <- (firstn_skipn (S k) log). apply in_or_app. right. exact Hx. }
+      rewrite (all_mine _ _ Hall') in Hpost. destruct (skipn (S k) log); [reflexivity | discriminate]. }
+    pose proof (mine_split_at serial log k P Hnth) as Hsplit.
+    assert (Hfk : mine serial (firstn k log) = map snd (firstn k log)).
+    { apply all_mine. apply Forall_forall. intros x Hx. rewrite Forall_forall in Hall. apply Hall.
+      rewrite <- (firstn_skipn k log). apply in_or_app. left. exact Hx. }
+    rewrite Hk, Hfk, (all_mine serial log Hall) in Hsplit. change (mine serial []) with (@nil opage) in Hsplit.
+    exists (map snd (firstn k log) ++ [P']). split.
+    + f_equal. rewrite bytes_of_map. f_equal.
+      rewrite <- (firstn_skipn (S k) (replace_nth log k (serial, P'))).
+      rewrite skipn_replace, Hk, app_nil_r.
+      assert (HS : firstn (S k) (replace_nth log k (serial, P')) = firstn k log ++ [(serial, P')]).
+      { clear - Hnth. revert k Hnth. induction log as [|e log IH]; intros k Hn; [destruct k; discriminate|].
+        destruct k as [|k]; cbn [nth_error] in Hn; cbn [replace_nth firstn app]; [reflexivity|].
+        f_equal. apply IH. exact Hn. }
+      rewrite HS, map_app. reflexivity.
+    + eapply shape_mark; [| exact Heos | reflexivity]. rewrite <- Hsplit. exact Hpp.
+  - (* nil EOS page *)
+    assert (Hpi : tr_page_index (sw_track w) = N.of_nat (length (map snd log))).
+    { rewrite Hidx. apply u32_small. exact Hbound. }
+    assert (Hnz : tr_page_index (sw_track w) <> 0).
+    { rewrite Hpi. destruct (map snd log); [congruence | cbn [length]; lia]. }
+    destruct (write_nil_eos_spec log (sw_track w) Hnz) as (nilP & tr' & Hnil & Hw).
+    rewrite Hout, Hw. exists (map snd log ++ [nilP]). split.
+    + f_equal. rewrite bytes_of_map, map_app. reflexivity.
+    + eapply shape_nil; [exact Hpp | | reflexivity].
+      rewrite Hser, Hpi, Hg in Hnil. exact Hnil.
 Qed.
